@@ -13,8 +13,11 @@ ID = "C18"
 RULE = ("ints: 0, +-(10^k-2..10^k+2) for k=0..18, int64 extremes, every permutation and sub-batch of batches <= 4 drawn from "
         "those, random batches mixing widths 1..19 and signs, random int64; integer texts with optional sign and leading zeros "
         "(also > 19 characters), List[int] join/split; float texts with 1..17 significant digits, optional sign, fraction, "
-        "exponent -300..300 (ulp distance to Python float(text) <= 4), repr round trip of random doubles, batch vs single-row "
-        "evaluation; integer/float/List[int] columns written and parsed through a delimited buffer. Non-trivial = |n| within 2 "
+        "exponent -300..300, >= 19 fractional digits / long zero runs (ulp distance to Python float(text) <= 4), repr round trip of "
+        "random doubles (also through the Lean model of the produced text), batch vs single-row evaluation; integer columns "
+        "through a DelimitedBuffer (fixed-width digit matrix; widest entry 10/19/20 characters, values around 2^31..10^10, signed "
+        "columns), optional columns with missing values, integer matrices through matrix_dump, integer/float/List[int] columns "
+        "written and parsed through a delimited buffer. Non-trivial = |n| within 2 "
         "of a power of ten, an int64 extreme, a sign, or a batch with >= 2 widths (ints); >= 2 rows or an exponent or >= 16 "
         "digits (floats)")
 EXHAUSTIVE = {"quick": False, "thorough": False}
@@ -37,9 +40,11 @@ MANIFEST = {
             "element; the repaired integer digit count is proved equal to the number of digits), parse_int (str_to_int of every "
             "batch of signed digit strings with leading zeros of any length = value, int64 minimum included), parse_format and "
             "spec_roundtrip (round trips), int_lists / split_join / int_lists_roundtrip (List[int] join and split element by "
-            "element), batch_independent (a batch is the concatenation of its one-row results), float_logic_partial and "
-            "float_logic_sci_partial (the exact decimal denoted by the float parser's validity check, sign/dot handling, digit "
-            "placement and exponent = the numeral's value), plus refutations of the rule shipped before the repair "
+            "element), batch_independent (a batch is the concatenation of its one-row results), parse_single (non-ragged 1-D path), "
+            "digit_matrix + column_ints (the right-aligned zero-filled digit matrix used for integer columns of files, any mix of "
+            "widths), parse_missing (optional columns), float_logic_partial / float_logic_sci_partial / float_logic_spec_partial "
+            "(for every text of the numeral grammar [+-]I[.F][e[+-]X] the float parser's validity check, sign/dot handling, digit "
+            "placement and exponent denote exactly the numeral's value), plus refutations of the rule shipped before the repair "
             "(10^15-1 -> '0999999999999999', -2^63 -> '-2'). Correspondence of the real strops functions (and int/float/List[int] "
             "columns through a delimited buffer) with the Lean model, the Lean spec and an independent Python oracle; float "
             "rounding by ulp distance (<= 4) to Python float(text); repr round trip compared bit-exactly.",
@@ -288,7 +293,7 @@ def cases(tier, rng):
         signed = [(-v if rng.random() < 0.4 else v) for v in vals]
         yield {"op": "column_ints", "rows": [str(v) for v in signed]}
     for _ in range(400 if big else 40):
-        rows = [rng.choice(["", ".", _int_text(rng), _int_text(rng)]) for _ in range(rng.choice([1, 2, 3, 6]))]
+        rows = [rng.choice(["", ".", ".", str(rng.randint(0, 9)), _int_text(rng), _int_text(rng)]) for _ in range(rng.choice([1, 2, 3, 6, 10, 16]))]
         yield {"op": "parse_missing", "rows": rows, "missing": rng.choice([0, -1, 7])}
     yield {"op": "parse_missing", "rows": [".", "."], "missing": 0}
     yield {"op": "parse_missing", "rows": ["", ".", ""], "missing": -1}
